@@ -318,8 +318,10 @@ class CGMYModel(LevyModel):
             res += c * (
                 (g + x) * np.log(g + x)
                 - g * np.log(g)
+                - x * np.log(g)
                 + (m - x) * np.log(m - x)
                 - m * np.log(m)
+                + x * np.log(m)
             )
         else:
             # adjustment for y >= 0 because of the center representation
